@@ -85,11 +85,21 @@ def canon(lines):
 
 
 def run_batch(scenarios):
-    text = "\n---\n".join("\n".join(s) for s in scenarios) + "\n---\n"
-    rc, out, err = core.run_harness("channel", text, timeout=900)
-    if rc != 0:
-        raise core.Broken("channel-harness", "exit %d: %s" % (rc, err[-500:]))
-    iblocks = split_blocks(out)
+    iblocks = []
+    todo = list(scenarios)
+    while todo:
+        text = "\n---\n".join("\n".join(s) for s in todo) + "\n---\n"
+        rc, out, err = core.run_harness("channel", text, timeout=900)
+        if rc != 0:
+            raise core.Broken("channel-harness", "exit %d: %s" % (rc, err[-500:]))
+        # a scenario that did not finish (an operation that waits) ends its process; the rest is run
+        # in a fresh one
+        abandoned = bool(out) and out[-1].strip() == "ABANDONED"
+        got = split_blocks(out[:-1] if abandoned else out)
+        if not got:
+            raise core.Broken("channel-harness", "no output for %d scenarios" % len(todo))
+        iblocks += got
+        todo = todo[len(got):] if abandoned else []
     if len(iblocks) != len(scenarios):
         raise core.Broken("channel-harness", "%d blocks for %d scenarios" % (len(iblocks), len(scenarios)))
     dtext, parsed = [], []
@@ -273,6 +283,12 @@ def monitors(scenario, trace, status):
             if tid in nested_host:
                 join(clk(nested_host[tid]), c)
             continue
+    for tid, st in cur.items():
+        bound = 7 + 2 * st["fails"]
+        if st["steps"] > bound:
+            probs["C08"].append("%s on t%d has taken %d own steps (%d failed CAS, bound %d) without returning: it waits for another operation to make progress%s" % (
+                st["op"], tid, st["steps"], st["fails"], bound,
+                " - the one it interrupted, which cannot run before this one returns" if tid in nested_host else ""))
     if not status.startswith("END done"):
         probs["C08"].append("scenario did not run to completion: %s" % status)
     fin = next((l for l in trace if l.startswith("final-drop")), None)
